@@ -10,13 +10,13 @@ git -C /repo worktree add -q "$wt" HEAD || exit 2
 cd "$wt"
 res=""
 demo=$(ls "$src" | grep -E '_test\.go$' | head -1)
-cp "$src/$demo" "$dest/zz_seed_demo_test.go"
+mkdir -p "$dest"; cp "$src/$demo" "$dest/zz_seed_demo_test.go"
 if go test -count=1 -run "$pat" "./$dest/" >/tmp/confirm-clean.log 2>&1; then res="$res demo-passes-clean=yes"; else res="$res demo-passes-clean=NO"; fi
 rm "$dest/zz_seed_demo_test.go"
 if git apply "$src/patch.diff"; then res="$res applies=yes"; else res="$res applies=NO"; fi
 if go build ./... >/tmp/confirm-build.log 2>&1; then res="$res builds=yes"; else res="$res builds=NO"; fi
 if go test -count=1 "$@" >/tmp/confirm-tests.log 2>&1; then res="$res suite-passes=yes"; else res="$res suite-passes=NO"; fi
-cp "$src/$demo" "$dest/zz_seed_demo_test.go"
+mkdir -p "$dest"; cp "$src/$demo" "$dest/zz_seed_demo_test.go"
 if go test -count=1 -run "$pat" "./$dest/" >/tmp/confirm-mut.log 2>&1; then res="$res demo-fails-mutated=NO"; else res="$res demo-fails-mutated=yes"; fi
 cd /; git -C /repo worktree remove --force "$wt"
 echo "$res"
